@@ -126,7 +126,7 @@ func (v *naVal) render(sb *strings.Builder) naExp {
 	return e
 }
 
-var naDisplays = []string{"", "Bob", "Bob Smith", "\"q\"", "\"a \\\" , ; < b\""}
+var naDisplays = []string{"", "Bob", "Bob Smith", "\"q\"", "\"a \\\" , ; < b\"", "*67", "*"}
 var naURIs = []string{"sip:a@b", "sip:h:5060", "tel:1"}
 var naParamMenu = []naParam{{"tag", "T", true}, {"TAG", "T2", true}, {"expires", "7", true}, {"q", "0.5", true}, {"lr", "", false}, {"x", "", false}, {"x", "y", true}, {"x", "\"q;,\"", true}}
 var naLWS = []string{" ", "\r\n ", "\t"}
@@ -229,7 +229,8 @@ type c09Case struct {
 	ValCap  int
 	Comma   []string // LWS after each ',' (len(Vals)-1)
 	HdrName string
-	Cut     int // > 0: the text is delivered in two chunks, the first of this length
+	Cut     int  // > 0: the text is delivered in two chunks, the first of this length
+	AllCuts bool `json:",omitempty"` // generator hint: always run every cut for this case
 }
 
 func trimTrail(b []byte, s, e int) (int, int) {
@@ -557,7 +558,7 @@ func checkC09(r *Run) {
 			mix(sb.String())
 		}
 		mix(fmt.Sprint(cs.Hdr, cs.Via, cs.ValCap, cs.HdrName))
-		if int(hsh>>8)%cutEvery != 0 {
+		if int(hsh>>8)%cutEvery != 0 && !cs.AllCuts {
 			return
 		}
 		tl += len(cs.HdrName)*2 + 8
@@ -591,14 +592,42 @@ func checkC09(r *Run) {
 			}
 		})
 	})
-	// '*'
-	for _, g := range []string{"", " ", "\r\n "} {
+	// '*' (always also in two chunks at every cut)
+	for _, g := range []string{"", " ", "\r\n ", "\t", "  ", "\r\n\t", " \r\n "} {
 		c0 := &enumCtx{r: r, st: newStats()}
 		st := naVal{Star: true, Gaps: []string{"", g}}
-		run(c0, &c09Case{Hdr: int(sipsp.HdrContact), Vals: []naVal{st}})
-		run(c0, &c09Case{Hdr: int(sipsp.HdrContact), Via: true, Vals: []naVal{st}, ValCap: 1, HdrName: "Contact"})
+		run(c0, &c09Case{Hdr: int(sipsp.HdrContact), Vals: []naVal{st}, AllCuts: true})
+		for _, hn := range []string{"Contact", "m"} {
+			for _, vc := range []int{-1, 0, 1} {
+				run(c0, &c09Case{Hdr: int(sipsp.HdrContact), Via: true, Vals: []naVal{st}, ValCap: vc, HdrName: hn, AllCuts: true})
+			}
+		}
 		r.St.merge(c0.st)
 	}
+	// every legal way of writing a q value (RFC 3261 qvalue: "0" ["." 0*3DIGIT] / "1" ["." 0*3("0")]), alone and next
+	// to other parameters
+	qforms := []string{"0", "1", "0.", "1.", "0.0", "1.0", "0.00", "1.00", "0.000", "1.000", "0.5", "0.05", "0.005", "0.50", "0.500", "0.123", "0.999", "0.001", "0.01", "0.1"}
+	parallelFor(r, len(qforms), func(c *enumCtx, qi int) {
+		q := naParam{"q", qforms[qi], true}
+		for _, qn := range []string{"q", "Q"} {
+			q.Name = qn
+			for _, pl := range [][]naParam{{q}, {q, {"expires", "7", true}}, {{"tag", "T", true}, q}, {{"x", "", false}, q, {"lr", "", false}}} {
+				for _, sh := range shapes {
+					v := sh
+					v.Params = pl
+					for _, g := range []string{"", " "} {
+						vv := v
+						vv.Gaps = make([]string, vv.nslots())
+						vv.Gaps[vv.nslots()-1] = g
+						for _, k := range []sipsp.HdrT{sipsp.HdrContact, sipsp.HdrFrom} {
+							run(c, &c09Case{Hdr: int(k), Vals: []naVal{vv}})
+							run(c, &c09Case{Hdr: int(k), Via: true, Vals: []naVal{vv}, ValCap: 2, HdrName: hdrNameFor(k, qi%2 == 0)})
+						}
+					}
+				}
+			}
+		}
+	})
 	// lists of 1-3 values, 1-2 headers, capacities, LWS around ','
 	lvals := []naVal{
 		{URI: "sip:a@b", Bracket: true},
